@@ -154,6 +154,13 @@ func checkC03(c *Ctx) {
 					continue
 				}
 				name := calleeName(cc)
+				if _, isCall := in.(*ssa.Call); !isCall {
+					// go f(conn) / defer f(conn): the handler goes on (and returns: its caller's deferred Close ends the
+					// connection) while, or before, f runs - waiting the deadline out must happen in the handler itself
+					r.Bad("C03.1", "handleNewTCPConn: clientConn handed to "+instrText(in), in.Pos(), fnName(h),
+						"the unidentified connection is handed to a goroutine / deferred call ("+shortName(pathOfCallee(cc))+") and the handler carries on: when it returns, the connection is closed at once - at exactly the byte count where the last transport gave up - instead of being read until the classification deadline")
+					continue
+				}
 				switch {
 				case name == "io.Copy" && i == 1 && pathOf(cc.Args[0]) == "io.Discard":
 					r.OK("C03.1", "handleNewTCPConn: io.Copy(io.Discard, clientConn)", in.Pos(), "drain (read only)")
@@ -557,6 +564,26 @@ func checkC03(c *Ctx) {
 	r.Rule("C03.11", "the prefix transport identifies a peer only by the tag revealed from this connection's bytes", 1)
 	checkPrefixLookupKey(c, "C03.11")
 	checkAcceptToHandler(c, h)
+	// ---- C03.15 "writes no byte to the peer": what a handler classifies is what ITS peer sent - the buffer its Read fills
+	// is memory of this call (a buffer from a free list can be on the list twice, and then two handlers classify each
+	// other's bytes: a prober is matched with a client's tag and gets the covert's bytes)
+	r.Rule("C03.15", "the handler reads the peer's bytes into a buffer allocated by that call", 1)
+	if h != nil {
+		n := 0
+		eachInstr(h, func(in ssa.Instruction) {
+			call, ok := in.(*ssa.Call)
+			if !ok || !call.Call.IsInvoke() || call.Call.Method.Name() != "Read" || len(call.Call.Args) != 1 {
+				return
+			}
+			n++
+			why := privateBuffer(h, call.Call.Args[0], 0)
+			r.Check(why == "", "C03.15", "handleNewTCPConn: the buffer handed to Read is private to this connection", call.Pos(), fnName(h), "allocated in this call: "+firstN(pathOf(call.Call.Args[0]), 50),
+				"the handler reads into memory that is "+why+": two handlers can read into the same array, so one connection is classified by another connection's bytes - a probe that never presented a tag can be matched, marked and proxied")
+		})
+		if n == 0 {
+			r.Unk("C03.15", "handleNewTCPConn: Read", h.Pos(), fnName(h), "no Read on the connection found")
+		}
+	}
 	// ---- C03.14 the handler's first step asks the manager's GeoIP database (an interface, no nil test): it must never
 	// be replaced by the nil result of a failed open, or the next probe takes the station - and every pending
 	// connection - down
